@@ -301,9 +301,10 @@ CHECKS = {
             "covers": {"VerifC05Sessions": ["partial-load", "wrote-in-session", "second-handle", "reloaded"]},
         }, {
             "pkg": ODB, "funcs": ["VerifC05Identity"],
-            "covers": {"VerifC05Identity": ["created", "restarted-same-identity", "other-directory", "in-memory", "still-open"]},
+            "covers": {"VerifC05Identity": ["created", "restarted-same-identity", "other-directory", "in-memory", "still-open", "restarted-through-another-spelling"]},
         }],
         "assumptions": [
+            "identity across a restart that designates the SAME directory by another string (a symbolic link natively, an alias in the disk model): same identity, the peer can still write",
             "history of STEPS steps on one store, each a local write (symbolic payload) or a real replication of a batch written by a remote writer (Sync -> replicator -> fetcher -> Join -> cache write -> EventReplicated)",
             "the store's block store and cache append every mutation to ONE ordered effect log; each effect is durable once its call returns (as the property assumes)",
             "acknowledgement instants: return of AddOperation, emission of EventReplicated (observed synchronously in the emitting goroutine); crash index = a symbolic integer over [0, #effects]; recovered disk = that prefix; fresh store + real Load(-1)",
@@ -434,8 +435,14 @@ CHECKS = {
             "max_paths": {"quick": 60000, "thorough": 600000},
             "timeout": {"quick": "10m", "thorough": "60m"},
             "covers": {"VerifC17WritersAndReplication": ["written", "reloaded"]},
+        }, {
+            "pkg": DOC, "funcs": ["VerifC17DocsConcurrent"],
+            "params": {"quick": {"P": 1}, "thorough": {"P": 2}},
+            "max_paths": {"quick": 60000, "thorough": 600000},
+            "covers": {"VerifC17DocsConcurrent": ["concurrent-calls"]},
         }],
         "assumptions": [
+            "public API of the document store (VerifC17DocsConcurrent): a PutAll of two documents concurrent with another PutAll sharing one key, a Put or a Delete, every schedule with at most P preemptions: each call appended one distinct entry carrying exactly ITS documents, all are in the log, the documents equal the replay of the log",
             "W writer goroutines on one real BaseStore (InitBaseStore over stubs) calling the real AddOperation with the real ipfs-log Append; payloads symbolic",
             "schedule: run-to-block with FIFO hand-over; at every visible operation (mutex/rwmutex lock+unlock, channel send/receive/select/close, go, waitgroup wait, cache write, block write) the path may preempt the running thread, at most P times per path (CHESS-style preemption bounding); every such schedule is explored",
             "then Close, a fresh store over the same cache and block store, real Load(-1) with the real ipfs-log fetcher",
@@ -497,8 +504,13 @@ CHECKS = {
             "max_paths": {"quick": 60000, "thorough": 400000},
             "timeout": {"quick": "10m", "thorough": "60m"},
             "covers": {"VerifSysMalformed": ["raw-bytes", "ill-typed", "malformed-heads", "misrouted-valid-head", "foreign-head-for-A", "via-direct-channel", "via-topic-A", "via-topic-B", "burst", "valid-after", "address-of-a-failed-open"]},
+        }, {
+            "pkg": BS, "funcs": ["VerifC12RepeatedHeads"],
+            "params": {"quick": {"R": 20}, "thorough": {"R": 40}},
+            "covers": {"VerifC12RepeatedHeads": ["one-head-repeated", "many-distinct-heads", "abusive-message-handled"]},
         }],
         "assumptions": [
+            "well-formed abusive heads messages (VerifC12RepeatedHeads): one genuine head listed R times, or R distinct genuine heads of one chain, in ONE message; Sync returns, each entry is merged once, a later valid message is handled",
             "raw direct-channel stream = ANY byte string of length 0..B (every byte symbolic): every varint incl. 10-byte overflowing ones and every declared length; real bufio.Reader, binary.ReadUvarint, io.ReadFull are interpreted",
             "declared lengths above 16 are explored up to the size check and the allocation only (recorded cut); every allocation sized by the declared length is an assertion `size <= DelimitedReadMaxSize` decided by the solver over all prefixes (vstub.AllocLimit), replayed natively by measuring the bytes allocated",
             "head-exchange message: json.Unmarshal over-approximated by ANY value of the message type: 1..H heads, each null or an entry with identity (absent / without signatures / complete, naming a writer), clock (absent / any 64-bit time), hash, next, key+sig independently absent or present; delivered on the store's topic of a replica built by the real InitBaseStore; afterwards a valid head (real ipfs-log Append by a second device of the writer) must still replicate through the real replicator, fetcher, Join",
@@ -534,8 +546,13 @@ CHECKS = {
             "max_paths": {"quick": 60000, "thorough": 600000},
             "timeout": {"quick": "10m", "thorough": "60m"},
             "covers": {"VerifC01KV": ["converged", "partial-load"]},
+        }, {
+            "pkg": KV, "funcs": ["VerifC06EdgeKeys"],
+            "params": {"quick": {"N": 2}, "thorough": {"N": 3}},
+            "covers": {"VerifC06EdgeKeys": ["edge-keys"]},
         }],
         "assumptions": [
+            "edge keys and values through the public API (VerifC06EdgeKeys): N operations, each a Put (value non-empty / empty / nil) or a Delete of a key from {\"\", \"a\", \"a/b\", \"/\"}; after each, Get of every such key, Get of a key never written and All equal the replay of the held operations",
             "listing of N operations in log order with symbolic 1-byte keys (any collision pattern), op kind PUT/DEL, value nil / empty / 1 symbolic byte",
             "earlier index state = replay of an arbitrary sub-listing (models earlier merges of any subset)",
             "store built by the real NewOrbitDBKeyValue/InitBaseStore over stub IPFS/bus/cache; the log handed to the index is a stub exposing Values()",
@@ -598,8 +615,12 @@ CHECKS = {
             "max_paths": {"quick": 60000, "thorough": 800000},
             "timeout": {"quick": "10m", "thorough": "90m"},
             "covers": {"VerifC08Writers": ["exchanged", "converged"]},
+        }, {
+            "pkg": EL, "funcs": ["VerifC08SortFn"],
+            "covers": {"VerifC08SortFn": ["restart-load", "restart-snapshot"]},
         }],
         "assumptions": [
+            "sort function as an option (VerifC08SortFn): two writers opened with a SortFn whose tie-break is the opposite of the default, two concurrent pairs, head exchanges; restart + Load or restart + snapshot; the listing follows that function on every route, a restart does not change the order of listed entries, later merges keep it",
             "listing of N entries with distinct hashes; one bound kind (none/GT/GTE/LT/LTE) at every position; Amount unset or ANY 64-bit integer (symbolic)",
             "store built by the real NewOrbitDBEventLogStore/InitBaseStore over stubs; index fed through the real eventIndex.UpdateIndex",
             "order stability: two writers, STEPS steps of local Add / real head exchange in any order; after every step the previous listing is a subsequence of the new one, own entries are in write order and a new entry follows everything its writer had seen; Get by address returns the entry",
